@@ -76,9 +76,9 @@ class WFQ(Scheduler):
             self.reset_vtime()
         else:
             self.update_vtime()
-            self.finish_times[class_id] = max(
-                self.finish_times[class_id], self.vtime
-            ) + packet.size * 8.0 / (self.rate * self.weights[class_id])
+        self.finish_times[class_id] = max(
+            self.finish_times[class_id], self.vtime
+        ) + packet.size * 8.0 / (self.rate * self.weights[class_id])
 
         self.add_packet_to_queue(packet)
         self.class_count[class_id] = self.class_count.get(class_id, 0) + 1
